@@ -93,22 +93,22 @@ Definition live_of (v : path_value) : option str := if pv_deleted v then None el
 Definition live (m : cfgmap) (p : str) : option str :=
   match map_get p m with Some v => live_of v | None => None end.
 
-Lemma parent_walk_live fuel : forall vals parent p,
-  live (fst (parent_walk fuel vals parent)) p = live vals p.
+Lemma drop_ancestors_live anc : forall acc p,
+  live (fst (fold_left drop_deleted_ancestor anc acc)) p = live (fst acc) p.
 Proof.
-  induction fuel as [|f IH]; intros vals parent p; cbn; [reflexivity|].
-  destruct parent as [|c parent]; [reflexivity|].
-  destruct (map_get (c :: parent) vals) as [v|] eqn:G; [|apply IH].
-  destruct (pv_deleted v) eqn:D; [|apply IH].
-  cbn. unfold live. rewrite map_get_del.
-  deq p (c :: parent); [|reflexivity].
+  induction anc as [|a anc IH]; intros acc p; cbn [fold_left]; [reflexivity|].
+  rewrite IH. unfold drop_deleted_ancestor.
+  destruct (map_get a (fst acc)) as [v|] eqn:G; [|reflexivity].
+  destruct (pv_deleted v) eqn:D; [|reflexivity].
+  cbn [fst]. unfold live. rewrite map_get_del.
+  deq p a; [|reflexivity].
   rewrite G. unfold live_of. rewrite D. reflexivity.
 Qed.
 
 Lemma apply_change_live vals path v p :
   live (fst (apply_change_to_config vals path v)) p = if eqb_str p path then live_of v else live vals p.
 Proof.
-  unfold apply_change_to_config. rewrite parent_walk_live. unfold live. rewrite map_get_set.
+  unfold apply_change_to_config. rewrite drop_ancestors_live. cbn [fst]. unfold live. rewrite map_get_set.
   destruct (eqb_str p path); reflexivity.
 Qed.
 
